@@ -1,6 +1,6 @@
 (* C08 — shape of the generated cases and the two executable verdicts. No proofs. *)
 From VLib Require Import CaseLib.
-From C08 Require Import Model.
+From C08 Require Import Model ModelGen.
 
 Definition all_names : list fname := [Docs; Meta; SdocsTmp; Sdocs; IndexTmp; Index].
 
@@ -91,7 +91,47 @@ Inductive case :=
 | CFault (p : plan) (k : nat) (n : N) (impl_err : bool) (impl_writes : list (N * N))
 (* real fm.seal in a child whose RLIMIT_FSIZE is [limit]: the first write crossing the limit is
    cut and fails.  impl: the child died (logger.Fatal), operations on the fraction's files *)
-| CLimit (p : plan) (init : list (fname * N)) (limit : N) (died : bool) (ops : list op).
+| CLimit (p : plan) (init : list (fname * N)) (limit : N) (died : bool) (ops : list op)
+(* ANY set of failing Writes on the io.WriteSeeker handed to the real writeSealedFraction: the listed
+   calls fail after storing the given number of bytes; with [pers = Some k0] every call from the
+   k0-th on fails too.  impl: an error came back; the writes that reached the file *)
+| CFaultSet (p : plan) (fl : list (nat * N)) (pers : option nat) (impl_err : bool) (impl_writes : list (N * N))
+(* the real rotate + fm.seal in a child in which ONLY the k-th write(2) on the ._index file fails
+   (EIO injected, nothing stored; every other write succeeds).  impl: the child died
+   (logger.Fatal), the fraction's files afterwards, .docs and .meta byte-identical to before *)
+| CSealT (p : plan) (init : list (fname * N)) (k : nat) (died : bool) (after : list fname) (orig_intact : bool)
+(* shape of the index of one corpus against the generator models: the LIDs section has one write
+   per block of getLIDsBlockGenerator(cap), the IDs section three per block of
+   getIDsBlocksGenerator(idsize) *)
+| CShape (p : plan) (cap : N) (lfields : list (list N)) (idsize nids : N)
+(* the real block generators driven with a push function that fails on the listed calls (0-based)
+   and, with [pers = Some k], on every call from the k-th on.  impl: the blocks handed to push, in
+   order; whether the generator returned an error *)
+| CGenLIDs (cap : N) (fields : list (list N)) (fl : list nat) (pers : option nat) (impl_tr : list lblock) (impl_err : bool)
+| CGenIDs (size n : N) (fl : list nat) (pers : option nat) (impl_tr : list N) (impl_err : bool)
+| CGenTokens (rbs : N) (fields : list (N * N)) (fl : list nat) (pers : option nat) (impl_tr : list tblock) (impl_err : bool)
+| CGenTable (fields : list (bool * N)) (fl : list nat) (pers : option nat) (impl_tr : list (nat * N)) (impl_err : bool).
+
+Definition lblock_eqb (a b : lblock) : bool :=
+  (lb_lids a =? lb_lids b)%N && (lb_pieces a =? lb_pieces b)%N && Bool.eqb (lb_last a) (lb_last b)
+  && Bool.eqb (lb_cont a) (lb_cont b) && (lb_min a =? lb_min b)%N && (lb_max a =? lb_max b)%N.
+Definition tblock_eqb (a b : tblock) : bool :=
+  Nat.eqb (tb_field a) (tb_field b) && Bool.eqb (tb_start a) (tb_start b) && (tb_total a =? tb_total b)%N
+  && (tb_tid a =? tb_tid b)%N && (tb_tokens a =? tb_tokens b)%N.
+Definition inb (f : fname) (l : list fname) : bool := existsb (fname_eqb f) l.
+Definition never : oracle := fun _ => false.
+Fixpoint sec_len (k : skind) (secs : list (skind * list N)) : nat :=
+  match secs with
+  | [] => 0
+  | (k', ws) :: r => (match k, k' with KIDs, KIDs | KLIDs, KLIDs => length ws | _, _ => 0 end + sec_len k r)%nat
+  end.
+(* the single transient failure of the k-th index write, nothing stored *)
+Definition fs_kth (k : nat) : fset := fs_index [(k, 0%N)] None.
+Definition gen_agrees {B : Type} (eqb : B -> B -> bool) (m : option (list B * res)) (impl_tr : list B) (impl_err : bool) : bool :=
+  match m with
+  | Some (tr, r) => list_eqb eqb tr impl_tr && Bool.eqb impl_err (res_is_err r)
+  | None => false
+  end.
 
 (* the write fault that a file size limit causes in the fault-free sequence *)
 Fixpoint limit_fault_from (ops : list op) (limit : N) (ks ki : nat) : option fault :=
@@ -126,6 +166,28 @@ Definition case_agrees (c : case) : bool :=
   | CLimit p init limit died ops =>
       let r := seal p (limit_fault p limit) in
       Bool.eqb died (res_is_err (snd r)) && list_eqb op_eqb ops (fst r)
+  | CFaultSet p fl pers impl_err impl_writes =>
+      let r := seal_fs p (fs_index fl pers) in
+      Bool.eqb impl_err (res_is_err (snd r)) && wl_eqb (writes_of IndexTmp (fst r)) impl_writes
+  | CSealT p init k died after orig_intact =>
+      let r := seal_fs p (fs_kth k) in
+      let s := run (fst r) (init_fs init) in
+      invb p (init_fs init) && Bool.eqb died (res_is_err (snd r)) && list_eqb fname_eqb (names s) after
+      && Bool.eqb orig_intact (intact (s Docs) && intact (s Meta))
+  | CShape p cap lfields idsize nids =>
+      match gen_lids cap lfields never, gen_ids idsize nids never with
+      | Some (tl, ROk), Some (ti, ROk) =>
+          Nat.eqb (sec_len KLIDs (ix_sections p)) (length tl) && Nat.eqb (sec_len KIDs (ix_sections p)) (3 * length ti)
+      | _, _ => false
+      end
+  | CGenLIDs cap fields fl pers impl_tr impl_err =>
+      gen_agrees lblock_eqb (gen_lids cap fields (oracle_of fl pers)) impl_tr impl_err
+  | CGenIDs size n fl pers impl_tr impl_err =>
+      gen_agrees N.eqb (gen_ids size n (oracle_of fl pers)) impl_tr impl_err
+  | CGenTokens rbs fields fl pers impl_tr impl_err =>
+      gen_agrees tblock_eqb (gen_tokens rbs fields (oracle_of fl pers)) impl_tr impl_err
+  | CGenTable fields fl pers impl_tr impl_err =>
+      gen_agrees (pair_eqb Nat.eqb N.eqb) (Some (gen_token_table fields (oracle_of fl pers))) impl_tr impl_err
   end.
 
 Definition no_publish (ops : list op) : bool :=
@@ -158,6 +220,21 @@ Definition case_spec_ok (c : case) : bool :=
                       || forallb (fun o => match o with ORename SdocsTmp Sdocs => false | _ => true end) ops)
       | None => true
       end
+  | CFaultSet p fl pers impl_err impl_writes =>
+      (* one of the writes of the index is in the set: it must come back as an error *)
+      impl_err || negb (fs_hits_upto (fs_index fl pers) IndexTmp (total_index_writes p))
+  | CSealT p init k died after orig_intact =>
+      (* a failed write: nothing published, the originals untouched (whether the process ends or
+         lives on is not the property's business) *)
+      (k =? 0)%nat || (total_index_writes p <? k)%nat
+      || (orig_intact && inb Docs after && inb Meta after && (negb (inb Index after) || mem_name Index init))
+  | CShape _ _ _ _ _ => true
+  (* every failed push was the last call made and came back as the generator's error; an error
+     only when the last call failed *)
+  | CGenLIDs _ _ fl pers impl_tr impl_err => propagated_b (oracle_of fl pers) (length impl_tr) impl_err
+  | CGenIDs _ _ fl pers impl_tr impl_err => propagated_b (oracle_of fl pers) (length impl_tr) impl_err
+  | CGenTokens _ _ fl pers impl_tr impl_err => propagated_b (oracle_of fl pers) (length impl_tr) impl_err
+  | CGenTable _ fl pers impl_tr impl_err => propagated_b (oracle_of fl pers) (length impl_tr) impl_err
   end.
 
 Definition diff_indices (l : list case) : list nat := bad_indices (fun c => negb (case_agrees c)) l.
